@@ -302,6 +302,41 @@ def run(ctx, rep):
     # ---------------- R10.5 -------------------------------------------------------------
     r10_5(ctx, rep, M)
 
+    # ---------------- R10.8 -------------------------------------------------------------
+    rep.rule("R10.8", "the buffer of the tail scan's positional read cannot be empty: it is created with a positive constant length (a read into "
+                      "an empty buffer returns 0, which the scan takes for end of file - every damaged record would then look like a zero tail "
+                      "and be cut off)")
+    n_scan = 0
+    for n in P.calls(r"FileExt>?::read_at$"):
+        a = event_args(g, n)
+        if len(a) < 2:
+            continue
+        n_scan += 1
+
+        def positive_len(e):
+            e = strip_ids(e)
+            def pos_const(c):
+                if not is_const(c):
+                    return False
+                try:
+                    return int(c[1]) > 0
+                except (TypeError, ValueError):
+                    return True          # a named constant the fact extractor did not evaluate: a compile-time value, not an input
+            if contains(e, lambda x: call_is(x, r"vec::from_elem$") and len(x[2]) > 1 and pos_const(x[2][1])):
+                return True
+            if contains(e, lambda x: isinstance(x, tuple) and x and x[0] == "repeat"):
+                return True      # a fixed-size array
+            return False
+        srcs = value_sources(g, a[1])
+        if srcs and all(positive_len(x) for x in srcs):
+            rep.ok("R10.8", "scan buffer", "created with a positive constant length", where=g.where(n))
+        else:
+            rep.violation("R10.8", "open|scan-buffer-may-be-empty", "read_at buffer",
+                          "the tail scan reads into a buffer whose length is not a positive constant (%s): with length 0 the first read returns 0, "
+                          "the scan reports `all zeros up to end of file`, and a damaged complete record is truncated away instead of being "
+                          "reported" % "; ".join(expr_s(strip_ids(x))[:60] for x in (srcs or [a[1]])), where=g.where(n))
+    rep.floor("R10.8", "positional reads of the tail scan in Op(open)", n_scan, 1)
+
     # ---------------- R10.4 -------------------------------------------------------------
     is_closed_map = lambda e: call_is(e, r"BTreeMap::<K, V>::new$|BTreeMap::<K, V, A>::new$")
     pops = [n for n in P.calls(r"BTreeMap::<K, V, A>::(pop_last|remove)$") if is_closed_map(strip_ids(event_args(g, n)[0]))]
